@@ -349,9 +349,11 @@ func c06Shape(cs *fo.Case, src string) string {
 	// dangling else: a multi-line if-only (a line "if .. then" with nothing after then, no else at its column before a shallower else/elif)
 	for i, ln := range lines {
 		t := code(ln)
-		if strings.HasPrefix(t, "if ") && (strings.HasSuffix(t, " then") || strings.Contains(t, " then //") || strings.Contains(t, " then /*") || strings.HasSuffix(strings.TrimRight(t, " \t"), " then")) {
+		if strings.HasPrefix(t, "if ") || strings.HasPrefix(t, "elif ") {
 			col := indent(ln)
-			// find the next code line with indentation <= col
+			// the if is written over several lines (deeper lines follow: its then-block, or a condition that
+			// spans lines); find the next code line with indentation <= col
+			deeper := false
 			for j := i + 1; j < len(lines); j++ {
 				tj := code(lines[j])
 				if tj == "" {
@@ -359,9 +361,10 @@ func c06Shape(cs *fo.Case, src string) string {
 				}
 				cj := indent(lines[j])
 				if cj > col {
+					deeper = true
 					continue
 				}
-				if cj < col && (strings.HasPrefix(tj, "else") || strings.HasPrefix(tj, "elif ")) {
+				if deeper && cj < col && (strings.HasPrefix(tj, "else") || strings.HasPrefix(tj, "elif ")) {
 					return "dangling-else"
 				}
 				break
